@@ -59,7 +59,7 @@ type c08Case struct {
 	Protocol     int32   `json:"protocol"`
 	OnlineMode   bool    `json:"online_mode"`
 	PreLogin     string  `json:"prelogin"` // none | allow | deny | force-online | force-offline
-	Session      string  `json:"session"`  // ok | ok-othername | empty200 | 204 | 401 | 500 | error | badjson | noname
+	Session      string  `json:"session"`  // ok | ok-othername | empty200 | 204 | 401 | 401-profile | 500 | error | badjson | noname
 	Compression  int     `json:"compression"`
 	ForceKeyAuth bool    `json:"force_key_auth"`
 	Secret       []byte  `json:"secret"` // 16 bytes: the shared secret the client generates
@@ -181,6 +181,9 @@ func (s *c08Session) RoundTrip(req *http.Request) (*http.Response, error) {
 		status = 204
 	case "401":
 		status, body = 401, `{"error":"Unauthorized"}`
+	case "401-profile":
+		status = 401
+		body = fmt.Sprintf(`{"id":"069a79f444e94726a5befca90e38aaf5","name":%q,"properties":[]}`, r.Username)
 	case "500":
 		status, body = 500, "oops"
 	case "error":
@@ -376,6 +379,15 @@ func c08RunInner(c c08Case) (res verifkit.Result) {
 	notAdmitWhy := "no-valid-login-exchange"
 	strictPrev := ""  // kind of the previous op if the property demands the connection be closed after it
 	strictPrevAt := 0 // index
+	softPrev := -1    // index of an unsolicited LoginPluginResponse just consumed (see c08StrictPluginResponse)
+	var deferred *verifkit.Violation
+	softCheck := func(nextConsumed bool, i int) {
+		if softPrev >= 0 && nextConsumed && deferred == nil && c08StrictPluginResponse {
+			deferred = verifkit.Violationf("login:unsolicited-plugin-response-not-closed",
+				"op %d was consumed by the proxy although op %d was a LoginPluginResponse nobody asked for (out of order): the connection stayed open", i, softPrev)
+		}
+		softPrev = -1
+	}
 	var token []byte  // issued verify token
 	wirePub := &proxyKey.PublicKey
 	gotEncReq := false
@@ -506,6 +518,7 @@ func c08RunInner(c c08Case) (res verifkit.Result) {
 		if strictPrev != "" {
 			return notClosed(i, op.Kind)
 		}
+		softCheck(true, i)
 
 		// the proxy consumed op in `phase`
 		kind := op.Kind
@@ -520,6 +533,7 @@ func c08RunInner(c c08Case) (res verifkit.Result) {
 			// unsolicited; the property text does not settle whether this counts as
 			// "out of order": no closure demanded, phase unchanged.
 			addLabel("unsolicited-plugin-response")
+			softPrev = i
 		case "unknown":
 			addLabel("unknown-packet")
 			// no demand; if the proxy closed, the next write fails and the script ends.
@@ -591,17 +605,21 @@ func c08RunInner(c c08Case) (res verifkit.Result) {
 								outThreshold = c.Compression
 							}
 						} else {
-							phase, notAdmitWhy = "rejected", "session-"+c.Session
+							phase, notAdmitWhy = "rejected", "session-not-confirmed"
 						}
 					} else {
 						// RSA-valid secret of a length vanilla never produces: no demand
 						// about the stream; admission is still tied to the session answer.
 						oddSecret = true
 						mayAdmit = c08SessionOK(c.Session)
-						phase, notAdmitWhy = "rejected", "session-"+c.Session
+						phase, notAdmitWhy = "rejected", "session-not-confirmed"
 						if mayAdmit {
 							phase = "odd"
 						}
+						// The proxy may now run a cipher the client cannot follow: nothing
+						// the client sends from here on has a defined meaning, so the script
+						// ends here and closure is not judged.
+						stopped = true
 					}
 				} else {
 					deviation = true
@@ -640,6 +658,7 @@ func c08RunInner(c c08Case) (res verifkit.Result) {
 		if perr == nil && strictPrev != "" {
 			return notClosed(len(c.Ops), "probe")
 		}
+		softCheck(perr == nil, len(c.Ops))
 		if perr == nil {
 			addLabel("open-at-end")
 		} else if strictPrev != "" {
@@ -682,8 +701,8 @@ func c08RunInner(c c08Case) (res verifkit.Result) {
 		// (2) admission only if the reference automaton permits it
 		if admitted && !mayAdmit {
 			return verifkit.Fail("admit:"+notAdmitWhy,
-				"client was admitted (LoginSuccess=%v registered=%v) although the history does not permit it: %s; session requests=%v",
-				tr.loginSuccess, registered, notAdmitWhy, reqs)
+				"client was admitted (LoginSuccess=%v registered=%v) although the history does not permit it: %s (session answer: %s); session requests=%v",
+				tr.loginSuccess, registered, notAdmitWhy, c.Session, reqs)
 		}
 		// (3) admission requires the session server to have confirmed exactly this join
 		if admitted {
@@ -747,6 +766,10 @@ func c08RunInner(c c08Case) (res verifkit.Result) {
 		addLabel("compressed-frames-read")
 	}
 	nt := gotEncReq && (deviation || !c08SessionOK(c.Session))
+	if deferred != nil {
+		// everything else about this history was judged and is fine
+		return verifkit.Result{V: deferred, NonTrivial: nt, Labels: append(labels, "deferred-unsolicited-plugin-response")}
+	}
 	return verifkit.Result{NonTrivial: nt, Labels: labels}
 }
 
@@ -998,7 +1021,7 @@ func c08Gen(t *rapid.T) c08Case {
 		Protocol:     rapid.SampledFrom(c08Protocols).Draw(t, "protocol"),
 		OnlineMode:   rapid.IntRange(0, 9).Draw(t, "online") != 0,
 		PreLogin:     rapid.SampledFrom([]string{"none", "none", "none", "none", "allow", "deny", "force-online", "force-offline"}).Draw(t, "prelogin"),
-		Session:      rapid.SampledFrom([]string{"ok", "ok", "ok", "ok", "ok", "ok-othername", "empty200", "204", "401", "500", "error", "badjson", "noname"}).Draw(t, "session"),
+		Session:      rapid.SampledFrom([]string{"ok", "ok", "ok", "ok", "ok", "ok-othername", "empty200", "204", "401", "401-profile", "500", "error", "badjson", "noname"}).Draw(t, "session"),
 		Compression:  rapid.SampledFrom([]int{-1, -1, 256, 1}).Draw(t, "compression"),
 		ForceKeyAuth: rapid.IntRange(0, 3).Draw(t, "forceKey") == 0,
 		Secret:       rapid.SliceOfN(rapid.Byte(), 16, 16).Draw(t, "secret"),
@@ -1037,6 +1060,12 @@ func c08Gen(t *rapid.T) c08Case {
 
 var c08CleanTotal, c08CleanAdmitted atomic.Int64
 
+// c08StrictPluginResponse: a LoginPluginResponse that answers no request is
+// treated as a login packet arriving out of order, i.e. the connection must be
+// closed after it (vanilla does; the property's packet alphabet lists "plugin
+// response"). Set to false to only demand that it never leads to admission.
+const c08StrictPluginResponse = true
+
 func TestVerif_C08(t *testing.T) {
 	defer func() {
 		// Vacuity guard: the safety oracle says nothing if the rig can never log in.
@@ -1045,6 +1074,6 @@ func TestVerif_C08(t *testing.T) {
 		}
 	}()
 	verifkit.Check(t, "C08", "login",
-		"login-phase packet sequences (1-7 ops over LoginStart / EncryptionResponse with token in {correct, wrong, empty, truncated, extended, unencrypted, garbage, empty array} x secret in {valid, garbage, unencrypted, empty array, other key, odd lengths} / unsolicited LoginPluginResponse / LoginAcknowledged / unknown id; duplicates and reorderings) x protocol in {1.8 .. 26.2} x online-mode on/off x PreLogin in {none, allow, deny, force-online, force-offline} x session answer in {200+profile, other name, 200 empty, 204, 401, 500, transport error, bad JSON, no name} x compression; reference login automaton; non-trivial = the exchange reached the EncryptionRequest and contains a deviation or a non-200 session answer",
+		"login-phase packet sequences (1-7 ops over LoginStart / EncryptionResponse with token in {correct, wrong, empty, truncated, extended, unencrypted, garbage, empty array} x secret in {valid, garbage, unencrypted, empty array, other key, odd lengths} / unsolicited LoginPluginResponse / LoginAcknowledged / unknown id; duplicates and reorderings) x protocol in {1.8 .. 26.2} x online-mode on/off x PreLogin in {none, allow, deny, force-online, force-offline} x session answer in {200+profile, other name, 200 empty, 204, 401, 401 with a profile body, 500, transport error, bad JSON, no name} x compression; reference login automaton; non-trivial = the exchange reached the EncryptionRequest and contains a deviation or a non-200 session answer",
 		c08Gen, c08Run)
 }
